@@ -148,6 +148,13 @@ def _topk(t, k, largest, want):
     return np.take_along_axis(t, order, axis=-1) if want == "vals" else order.astype(np.int64)
 
 
+def _topk_dim(t, k, largest, d, want):
+    t = np.asarray(t, dtype=np.float64)
+    k, d = _i(k), _i(d)
+    order = np.take(np.argsort(-t if largest else t, axis=d, kind="stable"), np.arange(k), axis=d)
+    return np.take_along_axis(t, order, axis=d) if want == "vals" else order.astype(np.int64)
+
+
 def _sort(t, dim, desc, want):
     t = np.asarray(t, dtype=np.float64)
     order = np.argsort(-t if desc else t, axis=_i(dim), kind="stable")
@@ -256,6 +263,7 @@ OPS = {
     "cdist": _cdist,
     "matnorm2": lambda t: np.asarray(np.linalg.norm(_arr(t), 2)), "matnorm2_r": lambda t: float(np.linalg.norm(_arr(t), 2)),
     "topk_vals": lambda t, k, lg: _topk(t, k, bool(lg), "vals"), "topk_idx": lambda t, k, lg: _topk(t, k, bool(lg), "idx"),
+    "topk_vals_dim": lambda t, k, lg, d: _topk_dim(t, k, bool(lg), d, "vals"), "topk_idx_dim": lambda t, k, lg, d: _topk_dim(t, k, bool(lg), d, "idx"),
     "sort_vals": lambda t, d, ds: _sort(t, d, bool(ds), "vals"), "sort_idx": lambda t, d, ds: _sort(t, d, bool(ds), "idx"),
     "argmin": lambda t: np.asarray(np.argmin(_arr(t))), "argmin_i": lambda t: int(np.argmin(_arr(t))),
     "one_hot": lambda idx, n: np.eye(_i(n), dtype=np.int64)[np.asarray(idx).astype(np.int64)],
